@@ -68,7 +68,8 @@ class BucketOutput(Output):
         return Add.join(list(reversed(terms)))
 
     def name(self) -> Variable:
-        return Variable(f"bucket_{self.output.id}{''.join(f'_{x}' for x in self.layers)}")
+        # The suffix keeps this from colliding with the pos and crd arrays of a tensor named bucket
+        return Variable(f"bucket_{self.output.id}{''.join(f'_{x}' for x in self.layers)}_vals")
 
     def loop_name(self) -> Variable:
         return Variable(f"i_bucket_{self.output.id}{''.join(f'_{x}' for x in self.layers)}")
